@@ -4,7 +4,7 @@ import re
 import subprocess
 from concurrent.futures import ThreadPoolExecutor
 
-COQ_ROOT = '/verif/coq'
+COQ_ROOT = os.path.join(os.environ.get('VERIF_ROOT', '/verif'), 'coq')
 
 HEADER = """From Coq Require Import ZArith NArith List String PrimFloat.
 Require Import PV.Base.Val {module}.
